@@ -522,6 +522,10 @@ class Buildable(Generic[T], metaclass=abc.ABCMeta):
       ]
       new_placeholders = old_placeholders.copy()
       new_placeholders[slice_key] = value
+      # Values that move to a new position are read from a snapshot: the loops
+      # below overwrite `__arguments__` in place, and a value that shifts to the
+      # right would otherwise be read after its old cell was overwritten.
+      old_arguments = dict(self.__arguments__)
       for index in range(var_positional_start, len(old_placeholders)):
         if index < len(new_placeholders):
           new_value = new_placeholders[index]
@@ -529,7 +533,7 @@ class Buildable(Generic[T], metaclass=abc.ABCMeta):
             if new_value == old_placeholders[index]:
               continue
             else:
-              new_value = self.__arguments__[new_value.index]
+              new_value = old_arguments[new_value.index]
           self._arguments_set_value(index, new_value)
         else:
           self._arguments_del_value(index)
@@ -538,7 +542,7 @@ class Buildable(Generic[T], metaclass=abc.ABCMeta):
       for index in range(len_old, len_new):
         new_value = new_placeholders[index]
         if isinstance(new_value, _Placeholder):
-          new_value = self.__arguments__[new_value.index]
+          new_value = old_arguments[new_value.index]
         self._arguments_set_value(index, new_value)
 
   def __setitem__(self, key: Any, value: Any):
